@@ -40,6 +40,20 @@ type svcProvider struct {
 	mu         sync.Mutex
 	advertised []string
 	schema     int // 0/1: the descriptors as generated; 2: a redeployed version (see schemaV2)
+	simOld     bool // the backend runs the older build of the sim/*.proto files (the one the gateway links)
+}
+
+func (p *svcProvider) setSimOld(v bool) {
+	p.mu.Lock()
+	p.simOld = v
+	p.mu.Unlock()
+}
+
+// files: the backend's own build of everything that is not api/test.proto.
+func (p *svcProvider) files() chainResolver {
+	p.mu.Lock()
+	defer p.mu.Unlock()
+	return chainResolver{first: simBackendFiles, then: protoregistry.GlobalFiles, skipSim: p.simOld}
 }
 
 func (p *svcProvider) setSchema(v int) {
@@ -166,7 +180,7 @@ func init() {
 	users.MessageType[0].Field = append(users.MessageType[0].Field,
 		&descriptorpb.FieldDescriptorProto{Name: str("email"), JsonName: str("email"), Number: i32(3), Label: lbl, Type: tStr})
 	for _, fdp := range []*descriptorpb.FileDescriptorProto{users, orders, bad} {
-		fd, err := protodesc.NewFile(fdp, chainResolver{simBackendFiles, protoregistry.GlobalFiles})
+		fd, err := protodesc.NewFile(fdp, chainResolver{first: simBackendFiles, then: protoregistry.GlobalFiles})
 		if err != nil {
 			panic(err)
 		}
@@ -207,7 +221,7 @@ func init() {
 		panic(err)
 	}
 	for _, f := range []*descriptorpb.FileDescriptorProto{fdp, protodesc.ToFileDescriptorProto(svc.ParentFile())} {
-		fd, err := protodesc.NewFile(f, chainResolver{simBackendFiles, protoregistry.GlobalFiles})
+		fd, err := protodesc.NewFile(f, chainResolver{first: simBackendFiles, then: protoregistry.GlobalFiles})
 		if err != nil {
 			panic(err)
 		}
@@ -239,9 +253,15 @@ func backendBuildOf(m proto.Message) proto.Message {
 	return dm
 }
 
-type chainResolver struct{ first, then *protoregistry.Files }
+type chainResolver struct {
+	first, then *protoregistry.Files
+	skipSim     bool // the sim/*.proto files come from 'then' (the older build)
+}
 
 func (c chainResolver) FindFileByPath(path string) (protoreflect.FileDescriptor, error) {
+	if c.skipSim && strings.HasPrefix(path, "sim/") {
+		return c.then.FindFileByPath(path)
+	}
 	if fd, err := c.first.FindFileByPath(path); err == nil {
 		return fd, nil
 	}
@@ -249,6 +269,9 @@ func (c chainResolver) FindFileByPath(path string) (protoreflect.FileDescriptor,
 }
 
 func (c chainResolver) FindDescriptorByName(name protoreflect.FullName) (protoreflect.Descriptor, error) {
+	if c.skipSim && strings.HasPrefix(string(name), "sim.shop.") {
+		return c.then.FindDescriptorByName(name)
+	}
 	if d, err := c.first.FindDescriptorByName(name); err == nil {
 		return d, nil
 	}
@@ -263,7 +286,7 @@ func (r schemaResolver) FindFileByPath(path string) (protoreflect.FileDescriptor
 	if r.p.schemaVersion() == 2 && path == schemaV2File.Path() {
 		return schemaV2File, nil
 	}
-	return chainResolver{simBackendFiles, protoregistry.GlobalFiles}.FindFileByPath(path)
+	return r.p.files().FindFileByPath(path)
 }
 
 func (r schemaResolver) FindDescriptorByName(name protoreflect.FullName) (protoreflect.Descriptor, error) {
@@ -272,7 +295,7 @@ func (r schemaResolver) FindDescriptorByName(name protoreflect.FullName) (protor
 			return d, nil
 		}
 	}
-	return chainResolver{simBackendFiles, protoregistry.GlobalFiles}.FindDescriptorByName(name)
+	return r.p.files().FindDescriptorByName(name)
 }
 
 func (p *svcProvider) GetServiceInfo() map[string]grpc.ServiceInfo {
